@@ -11,7 +11,7 @@ import json
 
 # payload fragments by character class (the property's quantifier)
 ASCII = ["a", "x y", "Az09", "~", " "]
-TWO = ["\u00e9", "\u00df", "\u0085", "\u00a0", "\u07ff"]
+TWO = ["\u00e9", "e\u0301", "\u00df", "\u0085", "\u00a0", "\u07ff", "\u00c5", "A\u030a", "\u212b"]  # incl. NFC / NFD / compatibility twins
 THREE = ["\u20ac", "\u4e2d", "\u2028", "\u2029", "\ufeff", "\u0800", "\uffff", "\ud7ff", "\ue000"]
 FOUR = ["\U0001f600", "\U0010ffff", "\U00010000", "\U0001d11e"]
 ESCAPED = ["\n", "\r", "\r\n", "\t", '"', "\\", "\\n", "\x0b", "\x0c", "\x1c", "\x00", "\x7f"]
@@ -43,6 +43,12 @@ JUNK = [
     "Infinity", "-0", "1e999", "'single'", '{"jsonrpc":"2.0","method":"m",}', '{"jsonrpc":"2.0","method":"m"}{"jsonrpc":"2.0","method":"n"}',
     "NaN", "[NaN]", '{"a":NaN}', '{"jsonrpc":"2.0","id":NaN,"method":"m"}', '{"jsonrpc":"2.0","method":"m","params":{"v":Infinity}}',
     "-Infinity", '{"jsonrpc":"2.0","method":"m"} // c', "data: {}", ": keep-alive", "event: message", "id: 1", "retry: 5",
+    # declared structure vs content: null next to its alternative, duplicated members, unusual order, BOM
+    '{"jsonrpc":"2.0","id":1,"result":{"a":1},"error":null}', '{"jsonrpc":"2.0","id":1,"error":{"code":1,"message":"m"},"result":null}',
+    '{"jsonrpc":"2.0","id":1,"result":null}', '{"jsonrpc":"2.0","id":1,"error":null}', '{"jsonrpc":"2.0","id":null,"method":"m","params":null}',
+    '{"jsonrpc":"2.0","id":1,"id":2,"result":{}}', '{"jsonrpc":"2.0","method":"a","method":"b"}', '{"result":{},"id":1,"jsonrpc":"2.0","jsonrpc":"2.0"}',
+    '{"id":1,"result":{"k":1,"k":2},"jsonrpc":"2.0"}', '\ufeff{"jsonrpc":"2.0","id":1,"result":{}}', '{"jsonrpc":"2.0","id":1,"result":{}}\ufeff',
+    '{"jsonrpc":"2.0","method":"e\u0301"}', '{"jsonrpc":"2.0","method":"\u00e9"}', '{"JSONRPC":"2.0","ID":1,"RESULT":{}}', '{"Jsonrpc":"2.0","Method":"m"}',
     "junk\rmore", "\rjunk", '{"jsonrpc":"2.0","method":"half', 'half","id":3}', "\ufeff", "NaN{", "<html>", "Content-Length: 12",
 ]
 
